@@ -14,10 +14,101 @@ class AnalysisError(Exception):
     Mapped to exit code 2 (never a silent pass, never a violation)."""
 
 
+def scalarise_dicts(fn):
+    """Source normalisation: a local dictionary with literal string keys that is only ever subscripted with those literals
+    (and at most walked with `for k, v in d.items():`) is a bundle of independent locals.  d['k'] becomes the local d__k
+    and the .items() loop is unrolled over the literal keys, in order.  Anything else about d (passed on, returned,
+    aliased, computed key) leaves the function untouched."""
+    import copy
+    cands = {}
+    for st in fn.body:
+        if isinstance(st, ast.Assign) and len(st.targets) == 1 and isinstance(st.targets[0], ast.Name) and isinstance(st.value, ast.Dict) and st.value.keys \
+                and all(isinstance(k, ast.Constant) and isinstance(k.value, str) and k.value.isidentifier() for k in st.value.keys):
+            cands[st.targets[0].id] = st
+    if not cands:
+        return fn
+    parents = {}
+    for p_ in ast.walk(fn):
+        for ch in ast.iter_child_nodes(p_):
+            parents[ch] = p_
+    ok = {}
+    for name, st in cands.items():
+        keys = [k.value for k in st.value.keys]
+        good = len(set(keys)) == len(keys)
+        loops = []
+        for n in ast.walk(fn):
+            if not (isinstance(n, ast.Name) and n.id == name):
+                continue
+            par = parents.get(n)
+            if par is st and n is st.targets[0]:
+                continue
+            if isinstance(par, ast.Subscript) and par.value is n and isinstance(par.slice, ast.Constant) and par.slice.value in keys:
+                continue
+            if isinstance(par, ast.Attribute) and par.attr == 'items' and isinstance(parents.get(par), ast.Call) and not parents[par].args:
+                loop = parents.get(parents[par])
+                if isinstance(loop, ast.For) and loop.iter is parents[par] and isinstance(loop.target, ast.Tuple) and len(loop.target.elts) == 2 \
+                        and all(isinstance(e, ast.Name) for e in loop.target.elts) and not loop.orelse:
+                    loops.append(loop)
+                    continue
+            good = False
+            break
+        # the assigned names must not be stored elsewhere
+        if good and sum(1 for n in ast.walk(fn) if isinstance(n, ast.Name) and n.id == name and isinstance(n.ctx, ast.Store)) == 1:
+            ok[name] = (st, keys, loops)
+    if not ok:
+        return fn
+    fn = copy.deepcopy(fn)
+    # recompute on the copy (positions are preserved, identities are not)
+    class T(ast.NodeTransformer):
+        def visit_Assign(self, node):
+            if len(node.targets) == 1 and isinstance(node.targets[0], ast.Name) and node.targets[0].id in ok and isinstance(node.value, ast.Dict):
+                out = []
+                for k, v in zip(node.value.keys, node.value.values):
+                    a = ast.Assign(targets=[ast.Name(id='%s__%s' % (node.targets[0].id, k.value), ctx=ast.Store())], value=self.visit(v))
+                    out.append(ast.copy_location(a, node))
+                    ast.fix_missing_locations(a)
+                return out
+            return self.generic_visit(node)
+
+        def visit_Subscript(self, node):
+            if isinstance(node.value, ast.Name) and node.value.id in ok and isinstance(node.slice, ast.Constant):
+                return ast.copy_location(ast.Name(id='%s__%s' % (node.value.id, node.slice.value), ctx=node.ctx), node)
+            return self.generic_visit(node)
+
+        def visit_For(self, node):
+            it = node.iter
+            if isinstance(it, ast.Call) and isinstance(it.func, ast.Attribute) and it.func.attr == 'items' and isinstance(it.func.value, ast.Name) and it.func.value.id in ok:
+                name = it.func.value.id
+                kvar, vvar = node.target.elts[0].id, node.target.elts[1].id
+                out = []
+                for k in ok[name][1]:
+                    a1 = ast.Assign(targets=[ast.Name(id=kvar, ctx=ast.Store())], value=ast.Constant(value=k))
+                    a2 = ast.Assign(targets=[ast.Name(id=vvar, ctx=ast.Store())], value=ast.Name(id='%s__%s' % (name, k), ctx=ast.Load()))
+                    body = [self.visit(copy.deepcopy(b)) for b in node.body]
+                    for x in [a1, a2]:
+                        ast.copy_location(x, node)
+                        ast.fix_missing_locations(x)
+                    out += [a1, a2]
+                    for b in body:
+                        out += b if isinstance(b, list) else [b]
+                return out
+            return self.generic_visit(node)
+    new_body = []
+    for st in fn.body:
+        r = T().visit(st)
+        new_body += r if isinstance(r, list) else [r]
+    fn.body = new_body
+    return fn
+
+
 class Func:
     def __init__(self, module, cls, node, relpath):
         self.module = module          # dotted module name
         self.cls = cls                # class name or None
+        try:
+            node = scalarise_dicts(node)
+        except Exception:
+            pass
         self.node = node              # ast.FunctionDef
         self.name = node.name
         self.relpath = relpath
